@@ -22,16 +22,38 @@ Consequences, each a theorem below: no infinite run of internal steps (the libra
 ping-pong on itself, whatever the scheduler does); a quiescent state with a pending `Next`/`Close`
 always has a *specific* outstanding environment call; once that environment answers — however slowly,
 in whatever order — a pending `Next` / `Close` returns after at most `nu` further steps of the whole
-system. Nothing here assumes scheduler fairness beyond "an enabled step is eventually taken".
+system.
+
+**What exactly is proved, and what is assumed.** The theorems are about *runs of the LTS* (lists of labels):
+(i) a bound on the length of every run that contains no `nextCall` / `closeCall` (MapIterator: no `nextCall`)
+— these are the only labels excluded from the measure, being the labels by which the single consumer starts
+a new call, enabled only while it is idle; (ii) "quiescent (no label with `isEnv = false` enabled) and a call
+pending ⇒ a call of `f` is running or a call on the source is unanswered"; (iii) existence of a run to the
+return made of internal steps and returns of `f` / the source only. "`Next` / `Close` returns" in the prose
+below is (i) + (ii) + (iii) **under two assumptions that are not part of any theorem**: a step that is
+enabled is eventually taken (weak fairness of single steps — in fact only "the system does not stop while an
+internal step is enabled"), and calls of `f` and of the source return. No statement here is about wall-clock
+time.
+
+**Ties.** As in `Props/C14.lean`, every theorem takes `cfg.code = Stream.code` / `Iter.code` and discharges
+`stream_ties` / `iter_ties` inside its proof. The MapStream measure needs `Code.Sound.ctxPlain` (the library's
+context does not end by itself: `libCtxEnd` disabled), the bound and the quiescence theorems the invariants;
+every MapIterator theorem needs `Code.Sound.sectionsAtomic` (the dispatcher's check and its parking are one
+step, because both critical sections lock `mapIterator.m`, which is `cond.L`) — in the LTS of code without it
+`dPark` is a step of its own, a `Signal` can be lost, and (ii) / (iii) are false (`Props/C14.lean`, last
+example).
 -/
 namespace Juniper.Props.C14Progress
 open Juniper.Gen Juniper.Model.ParMap Juniper.Proofs.ParMap
 
 /-! ## MapStream -/
 
-/-- **The measure (MapStream).** Every step other than a new consumer call strictly decreases `SM.nu`
-— in every state, reachable or not, and whatever the generated guards are; and in reachable states of
-the code as it is, `SM.nu` is at most `8·max(B,P') + 6·P' + 21` where `P'` is the clamped parallelism. -/
+/-- **The measure (MapStream).** Every step other than a new consumer call (`nextCall`, `closeCall`)
+strictly decreases `SM.nu` — all internal labels and the environment's `srcRet`, `srcCloseRet`, `fRet`,
+`consCtxExpire`, `parentCancel` — in every state, reachable or not; the only fact about the code used for
+this half is `ctxPlain` (`libCtxEnd`, "the library's context ends by itself", is not a step of the code as
+it is). In reachable states `SM.nu` is at most `8·max(B,P') + 6·P' + 21` where `P'` is the clamped
+parallelism. -/
 theorem mapStream_measure (cfg : Stream.Cfg) (hc : cfg.code = Stream.code) :
     (∀ s l s', Stream.step cfg s l = some s' → SM.isCall l = false → SM.nu s' < SM.nu s) ∧
     (1 ≤ cfg.gmp → ∀ s, Stream.Reach cfg s →
@@ -214,7 +236,8 @@ example : ∃ s s', Stream.Reach ⟨Stream.code, 1, 2, 8⟩ s ∧ s.cons = .clos
 `mapStream_close_terminates` is `mapIterator_next_terminates`, applied to each of the consumer's calls. -/
 
 /-- **The measure (MapIterator).** Every step other than `nextCall` strictly decreases `IM.nu` (in every
-state; the only fact about the code used is the guard `inFlight >= bufferSize`), and in reachable states
+state; the facts about the code used are the guard `inFlight >= bufferSize` and `sectionsAtomic`: the
+dispatcher's check-and-park is one step, `dPark` is not a step of the code as it is), and in reachable states
 `IM.nu ≤ 6·max(B,P') + 3·P' + 15`. -/
 theorem mapIterator_measure (cfg : Iter.Cfg) (hc : cfg.code = Iter.code) :
     (∀ s l s', Iter.step cfg s l = some s' → l ≠ .nextCall → IM.nu cfg s' < IM.nu cfg s) ∧
@@ -236,7 +259,9 @@ example : (List.range 15).map (fun n => (Iter.run ⟨Iter.code, 1, 1, 8⟩ (Iter
        some 7, some 15] := by
   decide
 
-/-- **Internal steps terminate (MapIterator).** -/
+/-- **Internal steps terminate (MapIterator).** From any reachable state every sequence of internal steps
+(`isEnv = false`: dispatcher incl. parking and being woken, workers, consumer) has
+`length + IM.nu(end) ≤ IM.nu(start) ≤ 6·max(B,P') + 3·P' + 15`; there is no infinite internal run. -/
 theorem mapIterator_internal_steps_terminate (cfg : Iter.Cfg) (hc : cfg.code = Iter.code) (hg : 1 ≤ cfg.gmp)
     (s : Iter.St) (h : Iter.Reach cfg s) :
     (∀ ls s', (∀ l ∈ ls, Iter.Label.isEnv l = false) → Iter.run cfg s ls = some s' →
